@@ -21,7 +21,7 @@ func assumptionsFor(prop string) []string {
 		"A1 baseapp discards the state changes of a failed message (cache-wrapped store)",
 		"A2 third parties only ever add coins to escrow addresses",
 		"A3 big-integer arithmetic is mathematical: 256-bit Int / 315-bit LegacyDec overflow panics are not modelled",
-		"A4 escrow address derivation is injective in (role, auction id) and disjoint from user addresses",
+		"A4 the SDK's address.Module hash is injective on names and misses user addresses (that the three escrow addresses of an auction are address.Module(ModuleName, tag+id) with distinct tags is checked: frame.escrow-addresses-derive-from-role-and-auction-id)",
 		"A5 hook listeners do not re-enter the fundraising keeper or move escrow funds",
 		"A6 time.Time values are UTC instants (Unix nanoseconds); AddDate(0,0,d) adds d*24h",
 		"A7 x/bank, x/distribution, collections and the codec behave as the extern models say",
@@ -29,6 +29,7 @@ func assumptionsFor(prop string) []string {
 		"A9 go/ssa is a faithful translation of the Go source",
 		"A10 induction over histories: the step case is proved (every message handler and BeginBlocker preserve the module invariant I); see A12 for the base case",
 		"A11 slices and maps hold fewer than 2^48 elements",
+		"A13 AccAddress.String() prints a spelling that AccAddressFromBech32 decodes back to the same address (the converse is NOT assumed: a valid string need not be the canonical spelling)",
 		"A12 the state after the chain's first genesis satisfies the module invariant I (true for the empty store; Validate alone does not imply it)",
 	}
 }
